@@ -400,7 +400,8 @@ class Interp:
         return out, t_done
 
     # -------------------------------------------------------------- fan-out
-    def _join(self, results, t):
+    def _join(self, results, t, name=None):
+        self.join_name = name          # lets a choose_failure policy decide per fan-out state
         """results: list of ("ok", out, t_end, trace) | ("err", StateError, trace)"""
         failures = [(i, r) for i, r in enumerate(results) if r[0] == "err"]
         if failures:
@@ -434,7 +435,7 @@ class Interp:
             except StateError as e:
                 results.append(("err", e))
         trace.append(("fanout", name, btraces))
-        outs, t_end = self._join(results, t)
+        outs, t_end = self._join(results, t, name)
         ctx["State"] = {"Name": name}
         value = outs
         if state.get("ResultSelector") is not None:
@@ -481,7 +482,7 @@ class Interp:
                 break
             t_batch = batch_end
         trace.append(("fanout", name, btraces))
-        outs, t_end = self._join(results, t)
+        outs, t_end = self._join(results, t, name)
         ctx["State"] = {"Name": name}
         value = outs
         if state.get("ResultSelector") is not None:
